@@ -469,9 +469,12 @@ func checkHeaderStrip(c *Ctx, rule string) {
 	p := c.P
 	// functions that produce the value stored into Envelope.Headers by the ingress handler
 	producers := map[*ssa.Function]bool{}
-	if serve := p.Func("ingress", "(*Server).ServeHTTP"); serve != nil {
+	hdrVals := map[ssa.Value]bool{}
+	serve := p.Func("ingress", "(*Server).ServeHTTP")
+	if serve != nil {
 		for _, st := range fieldStores(serve, "Envelope", "Headers") {
 			for _, src := range sourcesOf(st.Val) {
+				hdrVals[src.Val] = true
 				if call, ok := src.Val.(*ssa.Call); ok && src.Kind == "call" {
 					if f := call.Call.StaticCallee(); f != nil {
 						for g := range p.Reach(f) {
@@ -485,14 +488,27 @@ func checkHeaderStrip(c *Ctx, rule string) {
 	c.Count(rule+".header_producer_functions", len(producers))
 	// the copier: function of package ingress with a MapUpdate on map[string]string whose key is http.CanonicalHeaderKey(...) inside a range over http.Header
 	n := 0
-	for _, fn := range p.FuncsInPkg("ingress") {
+	cands := p.FuncsInPkg("ingress")
+	if serve != nil && p.IsView(serve) {
+		cands = append(cands, serve) // the copier may be part of the handler itself
+	}
+	for _, fn := range cands {
 		var upd *ssa.MapUpdate
 		rangesHeader := false
 		for _, b := range fn.Blocks {
 			for _, ins := range b.Instrs {
 				if mu, ok := ins.(*ssa.MapUpdate); ok {
 					if call, ok := mu.Key.(*ssa.Call); ok && calleeIs(call, "net/http", "", "CanonicalHeaderKey") {
-						upd = mu
+						// the update inside the loop over the received header map
+						if h := loopHeaderOf(mu.Block()); h != nil {
+							for _, hi := range h.Instrs {
+								if nx, ok := hi.(*ssa.Next); ok {
+									if r, ok := nx.Iter.(*ssa.Range); ok && namedName(r.X.Type()) == "Header" {
+										upd = mu
+									}
+								}
+							}
+						}
 					}
 				}
 				if r, ok := ins.(*ssa.Range); ok && namedName(r.X.Type()) == "Header" {
@@ -500,7 +516,20 @@ func checkHeaderStrip(c *Ctx, rule string) {
 				}
 			}
 		}
-		if upd == nil || !rangesHeader || !producers[fn] {
+		if upd == nil || !rangesHeader {
+			continue
+		}
+		if fn == serve && p.IsView(serve) {
+			flows := false
+			for _, src := range sourcesOf(upd.Map) {
+				if hdrVals[src.Val] {
+					flows = true
+				}
+			}
+			if !flows {
+				continue
+			}
+		} else if !producers[fn] {
 			continue
 		}
 		n++
